@@ -634,6 +634,9 @@ def event_inputs_to_events(
                     ]
                 )
             )
+        # the gate tree has to be calculated from the loaded event sets when
+        # it is first asked for
+        event._update_since_logic_gate_tree = len(event.event_sets) > 0
         events[eventInput.eventType] = event
     return events
 
